@@ -5,6 +5,7 @@ package main
 import (
 	"fmt"
 	"strings"
+	"sync"
 
 	"github.com/herohde/morlock/pkg/board"
 	"github.com/herohde/morlock/pkg/eval"
@@ -27,6 +28,8 @@ func emitMovegen(c *caseCtx, s state) {
 
 // C01: move generation on generated positions + perft anchors.
 func casesMovegen(c *caseCtx) {
+	// the opening book is the one path on which the engine plays a move without asking the generator
+	bookChecks(c, "C01")
 	for _, s := range genStates(c, c.scale(1500, 30000)) {
 		emitMovegen(c, s)
 	}
@@ -249,6 +252,7 @@ func casesAttacks(c *caseCtx) {
 		}
 		emitQueries(c, s)
 	}
+	concurrentQueries(c)
 	// eval.FindCapture / eval.FindPins
 	for _, s := range genStates(c, c.scale(300, 6000)) {
 		for k := 0; k < 4; k++ {
@@ -276,6 +280,59 @@ func casesAttacks(c *caseCtx) {
 			}
 		}
 	}
+}
+
+// concurrentQueries: the derived queries are functions of an immutable position, so asking them from
+// several goroutines at once (several engines or searches in one process) gives the same answers as asking
+// them one after the other.
+func concurrentQueries(c *caseCtx) {
+	sts := genStates(c, 320)[:320]
+	answer := func(s state) string {
+		var sb strings.Builder
+		for _, side := range []board.Color{board.White, board.Black} {
+			for sq := board.ZeroSquare; sq < board.NumSquares; sq += 3 {
+				for _, pl := range eval.FindCapture(s.pos, side, sq) {
+					fmt.Fprintf(&sb, "%d:%d:%d,", sq, pl.Piece, pl.Square)
+				}
+				fmt.Fprintf(&sb, "%v%v;", s.pos.IsAttacked(side, sq), s.pos.IsDefended(side, sq))
+			}
+			for _, pin := range eval.FindPins(s.pos, side, board.King) {
+				fmt.Fprintf(&sb, "p%d:%d:%d,", pin.Attacker, pin.Pinned, pin.Target)
+			}
+			for _, sq := range s.pos.Piece(side, board.Pawn).ToSquares() {
+				fmt.Fprintf(&sb, "s%d,", sq)
+			}
+			fmt.Fprintf(&sb, "%v%v%d|", s.pos.IsChecked(side), s.pos.IsCheckMate(side), len(s.pos.LegalMoves(side)))
+		}
+		return sb.String()
+	}
+	want := make([]string, len(sts))
+	for i, s := range sts {
+		want[i] = answer(s)
+	}
+	var wg sync.WaitGroup
+	var mu sync.Mutex
+	bad := 0
+	for w := 0; w < 8; w++ {
+		wg.Add(1)
+		go func(w int) {
+			defer wg.Done()
+			for rep := 0; rep < 3; rep++ {
+				for i := w; i < len(sts); i += 8 {
+					if got := answer(sts[i]); got != want[i] {
+						mu.Lock()
+						if bad < 2 {
+							fmt.Printf("IMPLVIOL queries %s %d :: asked concurrently with other positions the queries answer [%s], alone [%s] prop=C06 key=concurrent-queries\n", posTok(sts[i].pos), sts[i].turn, got, want[i])
+						}
+						bad++
+						mu.Unlock()
+					}
+				}
+			}
+		}(w)
+	}
+	wg.Wait()
+	fmt.Printf("COUNT concurrent-queries %d\n", len(sts)*3)
 }
 
 func isCorner(sq board.Square) bool {
